@@ -12,7 +12,7 @@ import (
 )
 
 const ruleText = "rapid draws a working set (1-2 clusters of 4-byte keys whose sha256 paths share 16..35 leading bits, plus short/odd keys), " +
-	"a store flavour (mapdb, mapdb with realm, flushkv(mapdb)) and a history of put/overwrite/delete/delete-present/commit/reopen/commit+reopen/rebuild-compare/check actions; " +
+	"a store flavour (mapdb, mapdb with realm, flushkv(mapdb), a realm of a database that also holds a committed neighbour map in a sibling realm, the same with the own realm = {0x00}), an identifier codec (bare 32 bytes or 0xAB-prefixed) and a history of put/overwrite/delete/delete-present/commit/reopen/commit+reopen/rebuild-compare/check actions; " +
 	"after every action Size, Has and Get of every working-set key and Stream (as multiset) are compared with a plain map, the (contents, root) pair goes into per-process " +
 	"contents->root and root->contents tables, rebuild actions (and the end of every history) compare the root with a fresh instance filled in another order with detours. " +
 	"distinct by the full case; non-trivial = a delete of a key sharing >=16 path bits with a remaining key or an overwrite of a non-empty value with an empty one, " +
@@ -22,7 +22,8 @@ const ruleText = "rapid draws a working set (1-2 clusters of 4-byte keys whose s
 func genCase(t *rapid.T, flavour string, maxSteps int) *caseSpec {
 	p := getPool()
 	c := &caseSpec{Flavour: flavour}
-	c.Store = rapid.SampledFrom([]string{"mapdb", "mapdb", "mapdb_realm", "flushkv"}).Draw(t, "store")
+	c.Store = rapid.SampledFrom([]string{"mapdb", "mapdb", "mapdb_realm", "flushkv", "mapdb_sibling", "mapdb_realm0"}).Draw(t, "store")
+	c.RootCodec = rapid.SampledFrom([]string{"", "", "prefixed"}).Draw(t, "rootCodec")
 	// working set
 	var ws []poolKey
 	nClusters := rapid.SampledFrom([]int{0, 1, 1, 1, 2, 2}).Draw(t, "nClusters")
@@ -150,7 +151,7 @@ func histories(t *testing.T, flavour string) {
 		c := genCase(rt, flavour, maxSteps)
 		info := &runInfo{}
 		f := runCase(c, info)
-		labels := []string{"store:" + c.Store, "steps:" + stepBucket(len(c.Actions)), "working_set:" + sizeBucket(len(c.Keys)), "max_size:" + sizeBucket(info.maxSize), fmt.Sprintf("commits:%s", sizeBucket(info.commits))}
+		labels := []string{"store:" + c.Store, "root_codec:" + map[string]string{"": "bare32", "prefixed": "prefixed"}[c.RootCodec], "steps:" + stepBucket(len(c.Actions)), "working_set:" + sizeBucket(len(c.Keys)), "max_size:" + sizeBucket(info.maxSize), fmt.Sprintf("commits:%s", sizeBucket(info.commits))}
 		for l, n := range info.labels {
 			_ = n
 			labels = append(labels, "case_with:"+l)
